@@ -247,6 +247,7 @@ static void proj(FILE *f, const vrt_rec_t *r)
 			fprintf(f, "{\"e\":\"FutexWaitRet\",\"t\":%d,\"rc\":%ld}\n", r->tid, r->a);
 		else if (!strcmp(r->name, "futex_wake"))
 			fprintf(f, "{\"e\":\"FutexWake\",\"t\":%d,\"all\":%d}\n", r->tid, r->a == INT_MAX);
+		else if (!strcmp(r->name, "dispose")) { /* end of the object's life (_dispatch_dispose probe): C17's business */ }
 		else fprintf(f, "{\"e\":\"Unknown\",\"t\":%d,\"probe\":\"%s\"}\n", r->tid, r->name);
 		break;
 	}
